@@ -103,7 +103,15 @@ pub fn parse_byte_list(input: &str) -> Result<Vec<u8>, DataError> {
         }
     }
 
-    let real_len = input.len() - start_quote_count * 2;
+    let char_count = input.chars().count();
+
+    // only quotes, e.g. the empty byte list ''
+    if start_quote_count == char_count {
+        return Ok(bytes);
+    }
+
+    // lengths are in characters: `take` below counts characters, not bytes
+    let real_len = char_count.saturating_sub(start_quote_count * 2);
 
     if start_quote_count >= 2 {
         parse_byte_list_numbers(&input[start_quote_count..(input.len() - start_quote_count)])
